@@ -7,7 +7,8 @@ job = {"mode": "cached" | "fresh", "devmap": {abs path: st_dev}, "etc": [abs pat
        "lookups": [{"cwd", "home", "target", "env": [p, k, m]}]}
 
 cached: the lookups run in sequence in this one process (ImportDB._default_cache as the code leaves it).
-fresh : ImportDB.clear_default_cache() before every lookup; also the parse oracle of every file.
+fresh : every lookup in its own forked copy of the interpreter (nothing survives from another lookup);
+        also the parse oracle of every file (in the parent, through _from_code on the text only).
 st_dev is injected by wrapping os.stat; _find_etc_dirs is replaced by the job's list (oracle argument)
 unless the job asks for the real function on a faked module location ("module_file").
 """
@@ -104,10 +105,7 @@ def main():
         loaded.append([str(f) for f in filenames])
         return orig(cls, filenames, mand)
     ImportDB._from_filenames = classmethod(cap)
-    if job["mode"] == "fresh":
-        out["parsed"] = {p: parse_file(ImportDB, Filename, p) for p in job["files"]}
-    res = []
-    for lk in job["lookups"]:
+    def one(lk):
         os.chdir(lk["cwd"])
         os.environ["HOME"] = lk["home"]
         for var, val in zip(("PYFLYBY_PATH", "PYFLYBY_KNOWN_IMPORTS_PATH", "PYFLYBY_MANDATORY_IMPORTS_PATH"), lk["env"]):
@@ -115,8 +113,6 @@ def main():
                 os.environ.pop(var, None)
             else:
                 os.environ[var] = val
-        if job["mode"] == "fresh":
-            ImportDB.clear_default_cache()
         del loaded[:]
         try:
             db = ImportDB.get_default(lk["target"])
@@ -129,8 +125,32 @@ def main():
         except Exception as e:
             r = {"kind": "err", "err": type(e).__name__, "msg": str(e)[:200]}
         r["keys"] = sorted((show_key(k) for k in ImportDB._default_cache), key=json.dumps)
-        res.append(r)
+        return r
+
+    res = []
+    for lk in job["lookups"]:
+        if job["mode"] == "fresh":
+            # a really fresh load: a forked copy of this (so far untouched) interpreter per lookup, so that
+            # no process-level state whatsoever (not only _default_cache) survives from another lookup
+            rd, wr = os.pipe()
+            pid = os.fork()
+            if pid == 0:
+                try:
+                    os.close(rd)
+                    with os.fdopen(wr, "w") as f:
+                        f.write(json.dumps(one(lk)))
+                finally:
+                    os._exit(0)
+            os.close(wr)
+            with os.fdopen(rd) as f:
+                data = f.read()
+            os.waitpid(pid, 0)
+            res.append(json.loads(data))
+        else:
+            res.append(one(lk))
     out["lookups"] = res
+    if job["mode"] == "fresh":
+        out["parsed"] = {p: parse_file(ImportDB, Filename, p) for p in job["files"]}
     sys.stdout.write("RESULT" + json.dumps(out))
 
 
